@@ -215,6 +215,8 @@ def monitor (g : Ghost) (w : List String) (head : String) (rets : List (Nat × S
       let sendKind := kind == "stop" || kind == "msd"
       let x := g.tg t
       if head == "PANIC" then
+        if !own && !(t == .uni && sendKind) && id > x.advMax then
+          fails := fails ++ [("limit_enforced", "-", s!"{kind} for stream {id} above the advertised limit {x.advMax} answered PANIC")]
         g := { g with dead := true }
       else if t == .uni && (own != sendKind) then
         if !stateErr then
@@ -313,7 +315,11 @@ def step (s : St) (op impl : String) : St × StepOut :=
             | some (.error e) => "E:" ++ e.name
             | some (.ok _) => "ok"
             | none => if ev.panic then "PANIC" else "?"
-          if k == "stream" || k == "rst" || k == "sdb" then some ([.recvFrame (intOf id)], res, [])
+          let i := m.inc (typeOf (intOf id))
+          let far := initiatedBy (intOf id) != m.pers && intOf id ≤ i.maxStream && intOf id - i.nextOpen > 4 * 20000
+          if (k == "stream" || k == "rst" || k == "sdb" || k == "stop" || k == "msd") && far then
+            some ([], (fun _ => "too-far"), [])     -- the harness never asks for this many streams at once
+          else if k == "stream" || k == "rst" || k == "sdb" then some ([.recvFrame (intOf id)], res, [])
           else if k == "stop" || k == "msd" then some ([.sendFrame (intOf id)], res, [])
           else if k == "del" then
             some ([.delete (intOf id)], (fun ev => match ev.del with
